@@ -174,10 +174,11 @@ CLAIMED = {
         ref="DESIGN.md section 6, C07"),
     "C08": dict(
         text="Coq theorems over the Gallina transliteration of calculateTime (int64 wrap explicit): budget < mover's clock, "
-             "budget < movetime, independence from the opponent's clock/increment, for all inputs below 2^40 ms; tied to the Go "
-             "function on every run by a differential run (grid + random) of VerifCalculateTime against the extracted model; the "
+             "budget < movetime, independence from the opponent's clock/increment, for all inputs below 2^40 ms, and - for EVERY "
+             "int64 input, whatever wraps - budget <= clock - max(clock/10, 50) and budget <= movetime - 50; tied to the Go "
+             "function on every run by a differential run (grid + random, values up to 2^61 so that the wraps occur) of VerifCalculateTime against the extracted model; the "
              "property inequality is also evaluated directly on the Go result.",
-        note="inputs < 2^40 ms; Go int is 64-bit",
+        note="Go int is 64-bit; the wrap-free closed formula needs inputs < 2^40 ms, the bounds do not",
         technique="Coq proof (lia over Z.quot) + differential correspondence check against the extracted model",
         ref="DESIGN.md section 6, C08"),
     "C09": dict(
